@@ -2,7 +2,11 @@
 // current-case file (so that a sanitizer abort still leaves a replay input),
 // text (de)serialisation of cases.  See DESIGN.md §1.2/§1.3.
 #pragma once
+#ifndef VF_FUZZ
 #include <rapidcheck.h>
+#else
+#include <fuzzer/FuzzedDataProvider.h>
+#endif
 #include <cstdint>
 #include <cstdio>
 #include <cstdlib>
@@ -30,10 +34,22 @@ namespace vf {
 
 // ---------------------------------------------------------------- generators
 // every random choice goes through rapidcheck so that cases shrink and replay
+#ifdef VF_FUZZ
+// libFuzzer build: the same generators decode the fuzzer's bytes instead of drawing from rapidcheck
+inline FuzzedDataProvider *&fdp() {
+  static FuzzedDataProvider *p = nullptr;
+  return p;
+}
+inline int64_t R(int64_t lo, int64_t hi) {
+  if (hi <= lo) return lo;
+  return fdp()->ConsumeIntegralInRange<int64_t>(lo, hi);
+}
+#else
 inline int64_t R(int64_t lo, int64_t hi) {  // inclusive range
   if (hi <= lo) return lo;
   return *rc::gen::resize(rc::kNominalSize, rc::gen::inRange<int64_t>(lo, hi + 1));  // inRange scales with size: pin it
 }
+#endif
 inline bool coin(int pct) { return R(0, 99) < pct; }
 template <class T> inline T pick(std::initializer_list<T> l) {
   std::vector<T> v(l);
@@ -55,7 +71,14 @@ inline int pickw(std::initializer_list<int> w) {
 // vector of 0..maxn elements produced by f(); shrinks by dropping elements
 template <class F> auto vec(int maxn, F f) -> std::vector<decltype(f())> {
   typedef decltype(f()) T;
+#ifdef VF_FUZZ
+  std::vector<T> v;
+  int n = (int)R(0, maxn);
+  for (int i = 0; i < n; i++) v.push_back(f());
+  return v;
+#else
   return *rc::gen::resize(maxn, rc::gen::container<std::vector<T>>(rc::gen::exec(f)));
+#endif
 }
 inline uint64_t seed64() { return (uint64_t)R(0, INT64_MAX - 1); }
 inline uint32_t u32() { return (uint32_t)R(0, 0xffffffffLL); }
@@ -353,12 +376,41 @@ struct PropBase {
   std::string name;
   virtual ~PropBase() {}
   virtual bool run_check() = 0;                   // true = no violation
+  virtual int run_fuzz_one() = 0;
   virtual int run_replay(const std::string &) = 0;  // 0 = passes
 };
 
 template <class Case> struct Prop : PropBase {
   std::function<Case()> gen;
   std::function<Verdict(const Case &)> oracle;
+  // libFuzzer entry: decode one case from the fuzzer's bytes and evaluate the same oracle
+  int run_fuzz_one() override {
+    Ctx &c = ctx();
+    Case cs = gen();
+    std::string s = ser(cs);
+    set_current(s);
+    alarm(c.watchdog_s);
+    Verdict v = oracle(cs);
+    alarm(0);
+    account(s, v);
+    if ((c.st.evaluations & 0x3ff) == 0) write_stats();
+    if (!v.ok) {
+      if (known_active(v.known)) {
+        count_excluded(v.known);
+        return 0;
+      }
+      fprintf(stderr, "\n[vf] VIOLATION in fuzz case: %s\n[vf] case: %s\n", v.msg.c_str(), s.c_str());
+      c.st.has_failure = true;
+      c.st.failure_case = s;
+      c.st.failure_msg = v.msg;
+      write_stats();
+      __builtin_trap();
+    }
+    return 0;
+  }
+#ifdef VF_FUZZ
+  bool run_check() override { return true; }
+#else
   bool run_check() override {
     Ctx &c = ctx();
     bool ok = rc::check(name, [&] {
@@ -382,6 +434,7 @@ template <class Case> struct Prop : PropBase {
     });
     return ok;
   }
+#endif
   int run_replay(const std::string &text) override {
     Case cs;
     if (!parse(text, cs)) {
@@ -639,8 +692,37 @@ inline std::string fmt(const char *f, ...) {
 
 }  // namespace vf
 
+#ifdef VF_FUZZ
+// libFuzzer glue: property chosen by the VF_FUZZ_PROP macro; statistics go to $VF_FUZZ_STATS; active known findings
+// from $VF_KNOWN (comma separated)
+#define VF_MAIN()                                                                   \
+  extern "C" int LLVMFuzzerInitialize(int *, char ***) {                            \
+    register_props();                                                               \
+    if (const char *o = getenv("VF_FUZZ_STATS")) vf::ctx().out = o;                 \
+    if (const char *k = getenv("VF_KNOWN")) {                                       \
+      std::stringstream ss(k);                                                      \
+      std::string t;                                                                \
+      while (std::getline(ss, t, ','))                                              \
+        if (!t.empty()) vf::ctx().known.insert(t);                                  \
+    }                                                                               \
+    signal(SIGALRM, vf::on_alarm);                                                  \
+    atexit(vf::write_stats);                                                        \
+    return 0;                                                                       \
+  }                                                                                 \
+  extern "C" int LLVMFuzzerTestOneInput(const uint8_t *data, size_t size) {         \
+    static vf::PropBase *P = nullptr;                                               \
+    if (!P)                                                                         \
+      for (auto *p : vf::props())                                                   \
+        if (p->name == VF_FUZZ_PROP) P = p;                                         \
+    if (!P) abort();                                                                \
+    FuzzedDataProvider f(data, size);                                               \
+    vf::fdp() = &f;                                                                 \
+    return P->run_fuzz_one();                                                       \
+  }
+#else
 #define VF_MAIN()                       \
   int main(int argc, char **argv) {     \
     register_props();                   \
     return vf::main_(argc, argv);       \
   }
+#endif
